@@ -398,18 +398,22 @@ def unifyEq : Ty → Ty → Bool
   | .opaque n as, .opaque n' as' => n == n' && unifyArgs as as'
   | .struct n as _, .struct n' as' _ => n == n' && unifyArgs as as'
   | _, _ => false
+termination_by structural a _ => a
 def unifyArgsTy : List Ty → List Ty → Bool
   | [], [] => true
   | a :: as, b :: bs => unifyEq a b && unifyArgsTy as bs
   | _, _ => false
+termination_by structural a _ => a
 def unifyArg : Arg → Arg → Bool
   | .ty a, .ty b => unifyEq a b
   | .const a, .const b => unifyConst a b
   | _, _ => false
+termination_by structural a _ => a
 def unifyArgs : List Arg → List Arg → Bool
   | [], [] => true
   | a :: as, b :: bs => unifyArg a b && unifyArgs as bs
   | _, _ => false
+termination_by structural a _ => a
 def unifyConst : Const → Const → Bool
   | .val t v, .val t' v' => v == v' && Ty.beq t t'
   | .bvar _ _ i, .bvar _ _ j => i == j
